@@ -577,6 +577,21 @@ def execute(case: dict) -> Outcome:
             if not (_is_number(got) and math.isnan(float(got))):
                 V.append(Violation("C14.O4", f"analysis failed ({recs[0][0]}) but the tracker "
                                    f"recorded {got!r} instead of NaN", {**sig, "kind": "nan"}))
+            if recs[0][0] == "raised" and scalar is not None:
+                # a failure that was not injected must be the analysis' own: the same frame
+                # analysed outside the tracker has to fail as well
+                try:
+                    want = real_gls(scalar.copy(), method=spec["method"])
+                except Exception:
+                    cnt.inc("probe.natural_failure_confirmed_offline")
+                else:
+                    if same_float_bits(got, want):
+                        cnt.inc("probe.failed_in_tracker_but_same_value")  # not observable
+                    else:
+                        V.append(Violation(
+                            "C14.O4", f"the analysis returns {want!r} for this frame, but inside "
+                            f"the tracker it raised {recs[0][2]} and NaN was recorded",
+                            {**sig, "kind": "fails_only_in_tracker"}))
             return
         else:
             cnt.inc("probe.length_analysis_calls_not_one")
